@@ -39,6 +39,10 @@ def _call_closest(g_int, v_int, shift, off):
 
     g = _f(g_int, shift, off)
     v = _f(v_int, shift, off)
+    if shift == 0 and off == 0 and (len(g_int) + len(v_int)) % 3 == 0:
+        g = np.asarray(g_int, dtype=np.int64)          # an integer-typed grid (values stay floats, or are integers too)
+        if len(v_int) % 2 == 0:
+            v = np.asarray(v_int, dtype=np.int64)
     try:
         out = get_closest(g, v)
     except Exception as e:  # noqa: BLE001
